@@ -844,16 +844,51 @@ _GATE_OLD = {"first": "            Ok(candidate) => match crate::core::util::is_
              "retry": "                Ok(candidate) => {\n                    match crate::core::util::is_delaunay_property_only(&candidate.tri.tds) {\n                        Ok(()) => return Ok(candidate),"}
 _GATE_NEW = {"first": "            Ok(candidate) => match candidate.is_valid()\n            {\n                Ok(()) => return Ok(candidate),",
              "retry": "                Ok(candidate) => {\n                    match candidate.is_valid() {\n                        Ok(()) => return Ok(candidate),"}
-for _nm, _har in (("first", "first_gate_contract"), ("retry", "retry_gate_contract")):
+_STATS_FN0 = r"fn build_with_shuffled_retries_with_construction_statistics\("
+_SL_GATE3 = dict(file=DT, fn_anchor=_STATS_FN0, name="verif_slice_gate_first_stats", params="candidate: Self, stats: ConstructionStatistics", ret="Result<(Self, ConstructionStatistics), ()>", where="where K::Scalar: ScalarSummable",
+                 stmts=[dict(block=r"match [^{;]*?\{\s*Ok\(\(\)\) => return Ok\(\(candidate, stats\)\),\s*Err\(err\) => \{\s*last_stats\.replace\(stats\);\s*format!",
+                             pre="let mut last_stats: Option<ConstructionStatistics> = None;\n        let _verif_last_error: String = ", post=";")],
+                 result="core::mem::forget(last_stats);\n        core::mem::forget(candidate);\n        Err(())")
+_SL_GATE4 = dict(file=DT, fn_anchor=_STATS_FN0, name="verif_slice_gate_retry_stats", params="candidate: Self, stats: ConstructionStatistics", ret="Result<(Self, ConstructionStatistics), ()>", where="where K::Scalar: ScalarSummable",
+                 stmts=[dict(block=r"match [^{;]*?\{\s*Ok\(\(\)\) => return Ok\(\(candidate, stats\)\),\s*Err\(err\) => \{\s*last_stats\.replace\(stats\);\s*last_error =",
+                             pre="let mut last_stats: Option<ConstructionStatistics> = None;\n        let mut last_error = String::new();\n        ", post=";")],
+                 result="core::mem::forget(last_stats);\n        core::mem::forget(last_error);\n        core::mem::forget(candidate);\n        Err(())")
+_GATE_SLICES = [_SL_GATE1, _SL_GATE2, _SL_GATE3, _SL_GATE4]
+for _nm, _har, _fnname in (("first", "first_gate_contract", "build_with_shuffled_retries"), ("retry", "retry_gate_contract", "build_with_shuffled_retries"),
+                           ("first_stats", "first_gate_stats_contract", "build_with_shuffled_retries_with_construction_statistics"), ("retry_stats", "retry_gate_stats_contract", "build_with_shuffled_retries_with_construction_statistics")):
     K("construct.gate." + _nm, ["C01"], DT, "dt_gate.rs", _har, "K-slice",
-      [dict(file=DT, name=f"DelaunayTriangulation::build_with_shuffled_retries (K-slice: acceptance gate of the {_nm} attempt)", anchor=_GATE_FN)],
-      slices=[_SL_GATE1, _SL_GATE2], timeout=900,
+      [dict(file=DT, name=f"DelaunayTriangulation::{_fnname} (K-slice: acceptance gate, {_nm} attempt)", anchor=_GATE_FN if "stats" not in _nm else _STATS_FN0)],
+      slices=_GATE_SLICES, timeout=900,
       assumed=["K-slice: the `match <check>(candidate) { Ok(()) => return Ok(candidate), Err(err) => .. }` expression of the attempt, verbatim, the candidate as a parameter "
                "(glue: `let .. =`/`;` around it, the rejected candidate is forgotten instead of dropped); everything else in the wrapper dropped (unit construct.retry_gate, manual, holds the whole-wrapper contract); "
                "is_delaunay_property_only (stub: pure, any verdict); DelaunayTriangulation::is_valid / validate (stubs: pure, any verdict independent of the brute-force one); format!, Display stubbed"],
       obligations=["gate-consulted", "ok-iff-certified"],
-      claim=f"acceptance gate of the {_nm} construction attempt: a candidate leaves build_with_shuffled_retries as Ok iff the brute-force empty-circumsphere check accepted it",
-      mutant=dict(file=DT, old=_GATE_OLD[_nm], new=_GATE_NEW[_nm], desc=f"{_nm} gate asks the flip-predicate verifier (is_valid) instead of the brute-force check"))
+      claim=f"acceptance gate ({_nm}) of {_fnname}: a candidate leaves the retry wrapper as Ok iff the brute-force empty-circumsphere check accepted it",
+      mutant=dict(file=DT, old=_GATE_OLD[_nm], new=_GATE_NEW[_nm], desc=f"{_nm} gate asks the flip-predicate verifier (is_valid) instead of the brute-force check") if _nm in _GATE_OLD else None)
+
+_RETRY_PARAMS = ("kernel: &K, vertices: &[Vertex<K::Scalar, U, D>], topology_guarantee: TopologyGuarantee, attempts: NonZeroUsize, base_seed: Option<u64>, grid_cell_size: Option<K::Scalar>")
+_RETRY_ABS = [dict(open=r"let mut last_error: String =\s*match Self::build_with_kernel_inner_seeded\w*\([^{}]*\) \{", body="r => { core::mem::forget(r); self::verif_kani_dt_retry::hook_first() }"),
+              dict(open=r"\}\s*match Self::build_with_kernel_inner_seeded\w*\([^{}]*\) \{", body="r => { core::mem::forget(r); self::verif_kani_dt_retry::hook_retry(attempt, attempt_seed, perturbation_seed); }")]
+_SL_SCHED1 = dict(file=DT, fn_anchor=_GATE_FN, name="verif_slice_retry_schedule_plain", params=_RETRY_PARAMS, ret="Result<Self, DelaunayTriangulationConstructionError>",
+                  where="where K::Scalar: ScalarSummable", stmts=[dict(rest_of_fn_after=None, abstract=_RETRY_ABS)], result="")
+_STATS_FN = r"fn build_with_shuffled_retries_with_construction_statistics\("
+_SL_SCHED2 = dict(file=DT, fn_anchor=_STATS_FN, name="verif_slice_retry_schedule_stats", params=_RETRY_PARAMS,
+                  ret="Result<(Self, ConstructionStatistics), DelaunayTriangulationConstructionErrorWithStatistics>",
+                  where="where K::Scalar: ScalarSummable", stmts=[dict(rest_of_fn_after=None, abstract=_RETRY_ABS)], result="")
+K("construct.retry_schedule", ["C14"], DT, "dt_retry.rs", "retry_schedules_agree_contract", "K-slice",
+  [dict(file=DT, name="DelaunayTriangulation::build_with_shuffled_retries (K-slice: whole body, candidate handling abstracted)", anchor=_GATE_FN),
+   dict(file=DT, name="DelaunayTriangulation::build_with_shuffled_retries_with_construction_statistics (K-slice: whole body, candidate handling abstracted)", anchor=_STATS_FN)],
+  slices=[_SL_SCHED1, _SL_SCHED2], timeout=1800, no_playback=True,
+  bounded="attempts = 2 (loop executed, not abstracted), one vertex (the wrappers never look at the vertices themselves); every base seed incl. the derived one",
+  assumed=["K-slices: the whole bodies of both retry wrappers, verbatim, EXCEPT the arms of the two `match Self::build_with_kernel_inner_seeded*(..) { .. }` expressions in each (candidate acceptance, error "
+           "formatting - storage code; the acceptance gates have their own units construct.gate.*), which are abstracted regions: every candidate counts as rejected and the region records the attempt number and the two seed LOCALS of that attempt "
+           "(that these locals are what is passed to shuffle_vertices / the inner builder is by reading); inner builders, shuffle_vertices (stubs): no effect; construction_shuffle_seed (stub): a fixed value; format!, env::var_os stubbed"],
+  obligations=["unshuffled-first", "same-attempt-numbers", "same-shuffle-seeds", "same-perturbation-seeds"],
+  claim="the two shuffled-retry constructors (with and without construction statistics) run the same schedule of shuffle seeds and perturbation seeds for the same options and base seed "
+        "(so the same vertices and options give the same cells whichever constructor is called)",
+  mutant=dict(file=DT, old="            let perturbation_seed = attempt_seed ^ 0xD1B5_4A32_D192_ED03;\n\n            #[cfg(debug_assertions)]\n            if log_shuffle {\n                tracing::debug!(\n                    attempt,\n                    attempt_seed,\n                    perturbation_seed,\n                    \"build_with_shuffled_retries_with_construction_statistics: shuffled attempt starting\"",
+              new="            let perturbation_seed = attempt_seed ^ 0xD1B5_4A32_D192_ED04;\n\n            #[cfg(debug_assertions)]\n            if log_shuffle {\n                tracing::debug!(\n                    attempt,\n                    attempt_seed,\n                    perturbation_seed,\n                    \"build_with_shuffled_retries_with_construction_statistics: shuffled attempt starting\"",
+              desc="perturbation-seed constant of the statistics twin differs from the plain constructor's"))
 
 K("tri.index_update", ["C09"], TRI, "tri_slices.rs", "index_update_uses_stored_coords_contract", "K-slice",
   [dict(file=TRI, name="Triangulation::insert_transactional (K-slice: index update after a committed insertion)", anchor=_SL_IDX["fn_anchor"])],
@@ -878,6 +913,16 @@ for nm, har in [("insert", "insert_snapshot_taken"), ("insert_with_statistics", 
       obligations=["snapshot-exists-when-poststep"],
       claim=f"DelaunayTriangulation::{nm}: when the insertion starts, a rollback snapshot exists whenever a post-insertion step can run for it - however the decision is computed (robust to refactoring into helpers)")
 
+K("flip.k2_pass", ["C04", "C08"], FLIPS, "flips_k2pass.rs", "k2_pass_reports_violation_contract", "K-callee",
+  [fn(FLIPS, "verify_postcondition_k2_facets")], timeout=1500, no_playback=True,
+  bounded="queue with one facet (the loop body is the same for every facet)",
+  assumed=["build_k2_flip_context (stub): some context; is_delaunay_violation_k2 (stub): any verdict or failure (formula: V-slice violation_formula); k2_flip_would_create_degenerate_cell (stub): any verdict; "
+           "find_cell_containing_simplex (stub): any answer - stands for any other query about the complex a rewritten pass might consult; repair_trace_enabled, env::var_os, format! stubbed"],
+  obligations=["violation-reported", "no-spurious-failure"],
+  claim="k=2 facet pass of the flip-predicate verifier: a facet whose predicate reports a violation with a non-degenerate flip makes the verifier fail - it is never deferred or skipped; no failure without a reported violation",
+  mutant=dict(file=FLIPS, old="                if flip_degenerate {\n                    if repair_trace_enabled() {\n                        tracing::debug!(\n                            \"[repair] postcondition k=2 violation unresolved due to degenerate flip (facet={facet:?})\"",
+              new="                if flip_degenerate || config.attempt > 0 {\n                    if repair_trace_enabled() {\n                        tracing::debug!(\n                            \"[repair] postcondition k=2 violation unresolved due to degenerate flip (facet={facet:?})\"",
+              desc="k=2 violations skipped on every attempt but the first"))
 K("flip.local_postcondition", ["C04", "C08"], FLIPS, "flips_verify.rs", "local_postcondition_contract", "K-callee",
   [fn(FLIPS, "verify_repair_postcondition_locally"), fn(FLIPS, "verify_repair_postcondition")], timeout=1500,
   assumed=["seed_repair_queues and the four verify_postcondition_* functions (stubs): any verdict, queues untouched - their bodies (predicates on real cells) are NOT verified; Tds::is_connected (stub): any answer"],
